@@ -572,7 +572,8 @@ def check(tier, seed, procs):
         _genome(hl, g)
     types = enumerate_types(tier)
     types.sort(key=lambda s: (depth(s), repr(s)))
-    chunks = [types[i:i + 16] for i in range(0, len(types), 16)]
+    step = 16 if tier == 'quick' else 64
+    chunks = [types[i:i + step] for i in range(0, len(types), step)]
     chunks = par.rotate(chunks, seed)
     rows = par.pmap(_run_types, chunks, procs, chunksize=1)
     n_eval = sum(r[0] for r in rows)
